@@ -158,22 +158,36 @@ class Result:
         return self.status == 'unsat'
 
 
+_hq_cache = {}
+
+
 def _has_quant(f):
+    fid = f.get_id()
+    if fid in _hq_cache:
+        return _hq_cache[fid]
     stack = [f]
     seen = set()
+    res = False
     while stack:
         t = stack.pop()
         i = t.get_id()
         if i in seen:
             continue
         seen.add(i)
+        if _hq_cache.get(i) is False:
+            continue
         if z3.is_quantifier(t):
             if not t.is_lambda():
-                return True
+                res = True
+                break
             stack.append(t.body())
             continue
         stack.extend(t.children())
-    return False
+    if len(_hq_cache) < 500000:
+        _hq_cache[fid] = res
+        if not res:
+            pass
+    return res
 
 
 _qcount = [0]
@@ -266,7 +280,8 @@ def discharge(vc, use_cvc5=True):
     ground, quants = prepare(base)
     qh = list(vc.qhyps) + quants
     inst = instantiate(ground, qh, z3.BoolVal(True))
-    qf = [f for f in ground + inst if not _has_quant(f)] + atom_facts()
+    qbodies = any(_has_quant(q.body) for q in qh)
+    qf = [f for f in ground if not _has_quant(f)] + ([f for f in inst if not _has_quant(f)] if qbodies else inst) + atom_facts()
     leftover = [f for f in ground if _has_quant(f)]
     s = z3.Solver()
     s.set('timeout', Z3_TIMEOUT_MS)
